@@ -94,6 +94,17 @@ fn main() {
 	if args.rest.get(1).map(String::as_str) == Some("--real-leg") {
 		std::process::exit(real::main_leg());
 	}
+	// a recorded violation of the real-process leg is replayed by running that leg again
+	if let Some(f) = &args.replay {
+		let real = std::fs::read_to_string(f).ok().and_then(|t| serde_json::from_str::<serde_json::Value>(&t).ok()).map_or(false, |v| v["scenario"].get("real_case").is_some());
+		if real {
+			let code = real::main_leg();
+			if code == 1 {
+				println!("VIOLATION property={prop} replay={}", f.display());
+			}
+			std::process::exit(code);
+		}
+	}
 	let h = Sup { prop: prop.clone(), set };
 	if args.rest.get(1).map(String::as_str) == Some("--count") {
 		let s = h.scenarios(args.tier);
